@@ -70,3 +70,13 @@ Definition c08_witness : list byte := bs "* OK [BADCHARSET ({2}" ++ [13; 10; 255
 Lemma c08_code_literal_fallback :
   exists rest v, parse c08_witness = ROk rest v 23 /\ rest = [255; 254] ++ bs ")] x" ++ [13; 10].
 Proof. eexists _, _. split; vm_compute; reflexivity. Qed.
+
+(* non-vacuity for body structures: a multipart with a text part carrying parameters and extension data, and a
+   message/rfc822 part with its own envelope and body, is accepted with the parts in their slots *)
+Definition bs_sample : list byte :=
+  bs "* 1 FETCH (BODYSTRUCTURE ((""TEXT"" ""PLAIN"" (""CHARSET"" ""UTF-8"") NIL NIL ""7BIT"" 12 1 NIL NIL NIL NIL)(""MESSAGE"" ""RFC822"" NIL NIL NIL ""8BIT"" 99 (NIL ""s"" NIL NIL NIL NIL NIL NIL NIL NIL) (""TEXT"" ""HTML"" NIL NIL NIL ""BASE64"" 5 2) 7) ""MIXED"" (""BOUNDARY"" ""x"") NIL NIL))" ++ [13; 10].
+Lemma bs_sample_parses : match parse bs_sample with
+  | ROk [] (VCon "Response::Fetch" [VNum 1; VList [VCon "AttributeValue::BodyStructure" [VRec "BodyStructure::Multipart" fs]]]) _ =>
+      match lookup "bodies" fs with VList [VRec "BodyStructure::Text" _; VRec "BodyStructure::Message" _] => True | _ => False end
+  | _ => False end.
+Proof. vm_compute. exact I. Qed.
